@@ -1061,3 +1061,37 @@ func Users(v ssa.Value) []ssa.Instruction {
 	walk(v)
 	return out
 }
+
+// Binding resolves a free variable of a closure to the value bound at the
+// MakeClosure site in the enclosing function (usually a heap Alloc).
+func (p *Prog) Binding(fv *ssa.FreeVar) ssa.Value {
+	f := fv.Parent()
+	mc := p.ClosureSite(f)
+	if mc == nil {
+		return nil
+	}
+	for i, v := range f.FreeVars {
+		if v == fv && i < len(mc.Bindings) {
+			return mc.Bindings[i]
+		}
+	}
+	return nil
+}
+
+// DerefFree resolves a load `*freevar` inside a closure to the single value
+// stored into the captured variable in the enclosing function, if unique.
+func (p *Prog) DerefFree(v ssa.Value) ssa.Value {
+	u, ok := v.(*ssa.UnOp)
+	if !ok || u.Op != token.MUL {
+		return nil
+	}
+	fv, ok := u.X.(*ssa.FreeVar)
+	if !ok {
+		return nil
+	}
+	b := p.Binding(fv)
+	if a, ok := b.(*ssa.Alloc); ok {
+		return SingleStore(a)
+	}
+	return nil
+}
